@@ -225,7 +225,7 @@ Print Assumptions C09_height_poll_ticks_while_pending.
    real rejection predicate of the conversion step: the event index is not the WormholeMessage index, or ToWormholeMessage
    rejects the raw fields (C11's rejection cases). *)
 From Coq Require Import Strings.Byte.
-From WH Require Import lib.Bytes model.Vaa model.AlphPipeline proofs.AlphPipelineProofs.
+From WH Require Import lib.Bytes model.Vaa model.AlphPipeline proofs.AlphPipelineRead proofs.AlphPipelineBase proofs.AlphPipelineProofs.
 From WH Require proofs.AlphConvProofs.
 
 (* C11's rejection cases are `unfit`: a numeric field outside its range - whatever the other fields are -, a wrong field count *)
